@@ -122,9 +122,11 @@ type explorer struct {
 	Inline func(g *ssa.Function) bool
 	// CallValue may give the abstract result of a call that is not inlined.
 	CallValue func(call *ssa.Call, e *explorer, st *pstate, fr *frame) ([]aval, bool)
-	MaxDepth  int
-	MaxPaths  int
-	paths     int
+	// StoreEvent may describe a store; skip=true: the store does not update cells.
+	StoreEvent func(s *ssa.Store, e *explorer, st *pstate, fr *frame) (desc string, ok bool, skip bool)
+	MaxDepth   int
+	MaxPaths   int
+	paths      int
 	Truncated bool
 	outcomes  map[string]Outcome
 }
@@ -250,6 +252,14 @@ func (e *explorer) execBlock(st *pstate, fr *frame, b, prev *ssa.BasicBlock, idx
 			k(st, fr, []aval{kstr("panic")}, nil)
 			return
 		case *ssa.Store:
+			if e.StoreEvent != nil {
+				if desc, ok, skip := e.StoreEvent(x, e, st, fr); ok {
+					st.events = append(st.events, desc)
+					if skip {
+						continue
+					}
+				}
+			}
 			if e.CellStore != nil {
 				if cell, val, ok := e.CellStore(x, fr); ok {
 					v := e.eval(val, st, fr)
@@ -481,6 +491,17 @@ func (e *explorer) eval(v ssa.Value, st *pstate, fr *frame) aval {
 				if v, ok := st.mem[a]; ok {
 					return v
 				}
+				// no store on this path: zero value of a local whose address does not escape
+				if !allocEscapes(a) {
+					switch derefType(a.Type()).Underlying().(type) {
+					case *types.Interface, *types.Pointer, *types.Slice, *types.Map:
+						return kstr("nil")
+					case *types.Basic:
+						if b := derefType(a.Type()).Underlying().(*types.Basic); b.Info()&(types.IsInteger|types.IsBoolean) != 0 {
+							return kint(0)
+						}
+					}
+				}
 			}
 			if g, ok := x.X.(*ssa.Global); ok {
 				return kstr("global:" + g.Name())
@@ -565,12 +586,39 @@ func (e *explorer) eval(v ssa.Value, st *pstate, fr *frame) aval {
 			}
 		}
 		return unk()
+	case *ssa.Call:
+		switch calleeName(&x.Call) {
+		case "fmt.Errorf", "errors.New":
+			return kstr("error")
+		}
+		return unk()
 	case *ssa.Phi:
 		return unk() // set on block entry when the edge is known
 	case *ssa.Global:
 		return kstr("global:" + x.Name())
 	}
 	return unk()
+}
+
+// allocEscapes: the cell's address is used for anything but loads, stores and
+// field addressing.
+func allocEscapes(a *ssa.Alloc) bool {
+	refs := a.Referrers()
+	if refs == nil {
+		return false
+	}
+	for _, r := range *refs {
+		switch x := r.(type) {
+		case *ssa.Store:
+			if x.Val == ssa.Value(a) {
+				return true
+			}
+		case *ssa.UnOp, *ssa.DebugRef:
+		default:
+			return true
+		}
+	}
+	return false
 }
 
 // strEq compares symbolic string values; ok=false when undetermined.
